@@ -710,6 +710,32 @@ func semaphoreReleased(c *an.Ctx, p *an.Prog, rule string) {
 				}
 			}
 			collect(ru)
+			// a named job that is handed the semaphore itself: its own (deferred) closures receiving from the captured
+			// parameter release the slot
+			if job.Parent() == nil && !gs.In.Common().IsInvoke() {
+				semPassed := false
+				for _, a := range gs.In.Common().Args {
+					v := a
+					if ct, ok := v.(*ssa.ChangeType); ok {
+						v = ct.X
+					}
+					if v == ssa.Value(sem) {
+						semPassed = true
+					}
+					if u, ok := v.(*ssa.UnOp); ok {
+						if al, ok := u.X.(*ssa.Alloc); ok {
+							for _, r := range *al.Referrers() {
+								if s2, ok := r.(*ssa.Store); ok && s2.Val == ssa.Value(sem) {
+									semPassed = true
+								}
+							}
+						}
+					}
+				}
+				if semPassed {
+					collect(job)
+				}
+			}
 			// which parameters of job are bound to a releaser closure at the go site?
 			relParams := map[int]bool{}
 			if !gs.In.Common().IsInvoke() {
